@@ -45,6 +45,26 @@ def load_variants(prop):
                         "patch": os.path.join(os.path.dirname(meta), "patch.diff"),
                         "expect_rules": m.get("expect_rules", {}).get(prop, [prop + "."]),
                         "source": os.path.relpath(meta, VERIF)})
+    # behaviour-preserving refactorings written by independent sub-agents: must stay silent.
+    # A property's thorough run takes the ones that touch files of its anchors.
+    anchors = set()
+    try:
+        with open(os.path.join(VERIF, "properties.jsonl")) as fh:
+            for line in fh:
+                pr = json.loads(line)
+                if pr["id"] == prop:
+                    anchors = set(pr["anchors"]["files"])
+    except OSError:
+        pass
+    for pth in sorted(glob.glob(os.path.join(VERIF, "variants", "neutral", "*.diff"))):
+        try:
+            txt = open(pth).read()
+        except OSError:
+            continue
+        files = set(x[6:] for x in txt.splitlines() if x.startswith("+++ b/"))
+        if files & anchors:
+            out.append({"name": "neutral/" + os.path.basename(pth), "kind": "neutral", "patch": pth,
+                        "source": os.path.relpath(pth, VERIF)})
     return out
 
 
